@@ -273,7 +273,9 @@ func (v *LV) Build(r *Rng) any {
 
 // ---- generation of logical values ----
 
-var words = []string{"a", "b", "c", "apple", "Banana", "cherry", "x y", "é", "日本", "10", "2", "", " pad ", "<b>T</b>", "a,b,c", "Z", "line1\nline2", "&amp;"}
+var words = []string{"a", "b", "c", "apple", "Banana", "cherry", "x y", "é", "日本", "10", "2", "", " pad ", "<b>T</b>", "a,b,c", "Z", "line1\nline2", "&amp;",
+	// one word per length 6..13: filters with numeric thresholds (truncate, slice, truncatewords) need inputs on both sides of every threshold
+	"abcdef", "seven 7", "eight ch", "123456789", "ten chars.", "hello world", "twelve chars", "one two three"}
 var keyWords = []string{"a", "b", "c", "d", "e", "f", "g", "h", "i", "j", "k", "l", "name", "title", "n"}
 
 func genScalar(r *Rng) *LV {
